@@ -7,6 +7,7 @@ import (
 	"encoding/json"
 	"encoding/xml"
 	"fmt"
+	"math"
 	mrand "math/rand"
 	"strings"
 	"sync"
@@ -304,6 +305,12 @@ func (Garbage) Run(c *orch.Case) *orch.Outcome {
 		cert = &tls.Certificate{}
 	} else {
 		sp = world.Get().NewSP()
+		switch cfg.SP {
+		case "maxlimit":
+			sp.MaximumDecompressedBodySize = math.MaxInt64
+		case "neglimit":
+			sp.MaximumDecompressedBodySize = -2
+		}
 		w := world.Get()
 		cert = &tls.Certificate{Certificate: [][]byte{w.SP.DER}, PrivateKey: w.SP.Key}
 	}
